@@ -12,6 +12,7 @@ from ..ref import quat as rq
 PROP = "C20"
 LEVEL = "exploration"
 SHARDS = {"quick": 4, "thorough": 16}
+THOROUGH_DEPTH = 40      # thorough tier = this many times the base thorough budget (VERIF_DEPTH overrides)
 ROUTES = ["Sensors(num_samples=)", "Sensors(quaternions=)"]
 REGIONS = {"random:noise-free": 12, "random:noisy": 12, "given:noise-free": 12, "given:noisy": 12}
 THOROUGH_QUOTA_MULT = 8
